@@ -39,6 +39,16 @@ def sealOp (main mirror : SecCtx) (op : String) (synced : Bool) : Option (SecCtx
       let (r, main') := unwrap main (flipBit sealed bit)
       pure (main', mirror', showU r, if synced then "E" else "*", false)
     | _ => none
+  | 'R' :: rest => do
+    -- the SAME tampered bytes handed in twice: rejected both times
+    let (bit, pt) ← splitColon (String.ofList rest)
+    match wrap mirror pt with
+    | .ok (sealed, mirror') =>
+      let t := flipBit sealed bit
+      let (r1, main1) := unwrap main t
+      let (r2, main2) := unwrap main1 t
+      pure (main2, mirror', showU r1 ++ "+" ++ showU r2, if synced then "E+E" else "*", false)
+    | _ => none
   | 'X' :: rest => do
     let (n, pt) ← splitColon (String.ofList rest)
     match wrap mirror pt with
